@@ -4,6 +4,8 @@ Nothing in here computes an expected value: it runs TLC, builds/executes the
 C++ harnesses against /repo's working tree, moves JSON between the two,
 matches violations against known_findings.json and writes evidence.
 """
+import contextlib
+import fcntl
 import hashlib
 import json
 import os
@@ -262,8 +264,11 @@ def try_cxx(src, flags=(), compiler="g++", deps=(), name=None, includes=(), link
     except subprocess.TimeoutExpired:
         raise InfraError("compiler timeout: %s" % src)
     if syntax_only:
-        write(out, "ok" if p.returncode == 0 else "fail")
-        write(out + ".log", p.stdout)
+        # a failure caused by a missing file is an infrastructure glitch, not a
+        # property of the source: never remembered
+        if p.returncode == 0 or not re.search(r"fatal error: .*(No such file or directory|file not found)", p.stdout):
+            write(out + ".log", p.stdout)
+            write(out, "ok" if p.returncode == 0 else "fail")
         return p.returncode == 0, p.stdout
     if p.returncode != 0:
         return False, p.stdout
@@ -438,20 +443,41 @@ def gen_headers(xml_text, name, sbeppc=None, extra_files=None):
         return _gen_headers(xml_text, name, sbeppc, extra_files)
 
 
+@contextlib.contextmanager
+def file_lock(path):
+    """Cross-process exclusive lock (checks may run concurrently and share the
+    content-addressed caches)."""
+    ensure_dir(os.path.dirname(path))
+    f = open(path, "a")
+    try:
+        fcntl.flock(f, fcntl.LOCK_EX)
+        yield
+    finally:
+        try:
+            fcntl.flock(f, fcntl.LOCK_UN)
+        finally:
+            f.close()
+
+
 def _gen_headers(xml_text, name, sbeppc, extra_files):
     key = sha(os.path.basename(sbeppc), xml_text, json.dumps(extra_files or {}, sort_keys=True))
     d = os.path.join(CACHE, "gen", name + "-" + key)
     if os.path.exists(os.path.join(d, ".ok")):
         return os.path.join(d, "out")
-    fresh_dir(d)
-    write(os.path.join(d, name + ".xml"), xml_text)
-    for fn, txt in (extra_files or {}).items():
-        write(os.path.join(d, fn), txt)
-    p = run([sbeppc, "--output-dir", os.path.join(d, "out"), os.path.join(d, name + ".xml")], timeout=120)
-    if p.returncode != 0:
-        raise SbeppcRejected(name, p.returncode, p.stdout + p.stderr, os.path.join(d, name + ".xml"))
-    write(os.path.join(d, ".ok"), "")
-    return os.path.join(d, "out")
+    with file_lock(os.path.join(CACHE, "gen", ".lock-" + name + "-" + key)):
+        if os.path.exists(os.path.join(d, ".ok")):
+            return os.path.join(d, "out")
+        # a directory without .ok is the debris of an interrupted run; nobody
+        # else can be writing it while we hold the lock
+        fresh_dir(d)
+        write(os.path.join(d, name + ".xml"), xml_text)
+        for fn, txt in (extra_files or {}).items():
+            write(os.path.join(d, fn), txt)
+        p = run([sbeppc, "--output-dir", os.path.join(d, "out"), os.path.join(d, name + ".xml")], timeout=120)
+        if p.returncode != 0:
+            raise SbeppcRejected(name, p.returncode, p.stdout + p.stderr, os.path.join(d, name + ".xml"))
+        write(os.path.join(d, ".ok"), "")
+        return os.path.join(d, "out")
 
 
 class SbeppcRejected(Exception):
